@@ -184,7 +184,7 @@ Definition selects (w : option pred) (r : row) : bool :=
 Inductive expr :=
 | ELit (v : val)
 | ECol (c : nat)
-| EAdd (c : nat) (k : Z)      (* col + literal; i64 overflow panics (debug build) *)
+| EAdd (c : nat) (k : Z)      (* col + literal; i64 overflow is an error (checked_add) *)
 | EDefault.
 
 Inductive stmt :=
@@ -204,7 +204,7 @@ Inductive errk := EConstraint | ENotFound | EOther.
 Inductive result :=
 | ROk (n : nat)          (* rows affected / done *)
 | RErr (e : errk)
-| RPanic                 (* Rust panic (arithmetic overflow in a SET expression) *)
+| RPanic                 (* Rust panic (none left on the modelled paths; kept for the result code) *)
 | RCrash.                (* unbounded recursion of the cascade: stack overflow, process abort *)
 
 (** ghost events *)
@@ -519,7 +519,9 @@ Fixpoint insert_validate (d : db) (tb : table) (batch : list key) (rs : list row
       if negb (Nat.eqb (length r) (ncols tb)) then Some EOther
       else if negb (notnull_okb tb r) then Some EConstraint
       else
-        let pkv := match t_pk tb with Some pk => Some (proj_colorder pk r) | None => None end in
+        (* the primary-key tuple is rebuilt in DECLARATION order after the column walk (the
+           foreign-key tuples below are not) *)
+        let pkv := match t_pk tb with Some pk => Some (proj pk r) | None => None end in
         let dup := match pkv, t_pk tb with
                    | Some k, Some pk => key_mem k batch || key_mem k (map (proj pk) (t_rows tb))
                    | _, _ => false
@@ -618,7 +620,7 @@ Definition exec_insert_select (d : db) (dst src : nat) (simple : bool) (sel : li
 (* ------------------------------------------------------------------------------------ *)
 (** * UPDATE statement: update/mod.rs, update/foreign_keys.rs *)
 
-Inductive evalres := VOk (v : val) | VPanic.
+Inductive evalres := VOk (v : val) | VErr.
 
 Definition eval_expr (tb : table) (c : nat) (e : expr) (r : row) : evalres :=
   match e with
@@ -627,7 +629,7 @@ Definition eval_expr (tb : table) (c : nat) (e : expr) (r : row) : evalres :=
   | EAdd c' k =>
       match nth c' r None with
       | None => VOk None
-      | Some v => if i64_ok (v + k) then VOk (Some (v + k)%Z) else VPanic
+      | Some v => if i64_ok (v + k) then VOk (Some (v + k)%Z) else VErr
       end
   | EDefault => VOk (col_default tb c)
   end.
@@ -638,15 +640,14 @@ Fixpoint apply_asg (tb : table) (asg : list (nat * expr)) (orig : row) (acc : ro
   | [] => Some acc
   | (c, e) :: rest =>
       match eval_expr tb c e orig with
-      | VPanic => None
+      | VErr => None
       | VOk v => apply_asg tb rest orig (set_nth c v acc)
       end
   end.
 
 Inductive upd_plan :=
 | UPlan (ups : list (nat * row * row))     (* (index, old row, new row) *)
-| UErr (e : errk)
-| UPanic.
+| UErr (e : errk).
 
 (** step 6: build and validate every new row against the pre-statement database *)
 Fixpoint plan_updates (d : db) (tb : table) (asg : list (nat * expr)) (sel : list (nat * row))
@@ -655,7 +656,7 @@ Fixpoint plan_updates (d : db) (tb : table) (asg : list (nat * expr)) (sel : lis
   | [] => UPlan []
   | (i, r) :: rest =>
       match apply_asg tb asg r r with
-      | None => UPanic
+      | None => UErr EOther          (* "BIGINT value is out of range" *)
       | Some nr =>
           if negb (notnull_okb tb nr) then UErr EConstraint
           else
@@ -809,7 +810,6 @@ Definition exec_update (ord : list nat) (d : db) (t : nat) (asg : list (nat * ex
                         | None => false
                         end in
       match plan_updates d tb asg sel with
-      | UPanic => ((d, []), RPanic)
       | UErr e => ((d, []), RErr e)
       | UPlan ups =>
           let ev0 :=
